@@ -34,10 +34,19 @@ CLAIMED = {
     "C08": ("offline trace checker: every CSV row and the end-of-run summary compared column by column with the harness' event log; CSVReader round trip",
             "held on the K generated traces, apart from the listed known findings",
             "DESIGN.md 4/C08", E2E_NOTE),
+    "C04": ("reference-model monitor over direct-drive operation histories (random + exhaustive short sequences) comparing all public getters after every step; idle-capacity hook in full simulations",
+            "held on the K histories executed against Resources/Worker/WorkerPool and the e2e idle-worker checks; the 9-op/length<=4 sweep is complete, the rest sampled",
+            "DESIGN.md 4/C04", "Trusted base: the instance-level occupancy model in vmon/checks/c04_ledger.py; small vectors (<=3 names x <=3 instances x quantity<=3)."),
+    "C16": ("differential monitor: EventTime operators vs integer microseconds; EventQueue histories vs a reference sorted list",
+            "held on the sampled value triples over all 9 unit pairs (|us| < 2^53, edge values) and the queue histories incl. in-place retimes",
+            "DESIGN.md 4/C16", "Trusted base: Python integers; the documented ordering key (time, type value, task unique name)."),
+    "C17": ("differential monitor: Graph/TaskGraph/JobGraph routines vs brute force on enumerated and random DAGs and cyclic graphs",
+            "complete for all DAGs on <=5 nodes (quick) / <=6 nodes (thorough) in several insertion orders, sampled beyond",
+            "DESIGN.md 4/C17", "Trusted base: the brute-force reference in vmon/checks/c17_graphs.py."),
 }
 
 _WIP = "check not built yet in this session; planned with the same technique, see DESIGN.md section 4"
-NOT_YET = {p: _WIP for p in ["C04", "C09", "C10", "C11", "C12", "C13", "C14", "C15", "C16", "C17", "C18", "C19", "C20"]}
+NOT_YET = {p: _WIP for p in ["C09", "C10", "C11", "C12", "C13", "C14", "C15", "C18", "C19", "C20"]}
 
 
 def build():
